@@ -155,6 +155,33 @@ def run(ck, w):
         else:
             ck.ok(o, sites=[sn[0].site()])
     common.reuse_exactly_conditioned(ck, w, "C14.2d")
+    o = ck.ob("C14.3b", "backup(): the only reason to start without a basis is that the archive has no band at all (Stitch::empty only on the None side "
+                        "of last_band_id): an unopenable or interrupted newest band is left to the stitcher, which falls back to the band before it")
+    se = events_of(lib, bk, "index::stitch::Stitch::empty")
+    lbi_ = events_of(lib, bk, "archive::Archive::last_band_id")
+    none_edges = set()
+    for e in lbi_:
+        car = flow.result_carriers(bk, e.dest["l"])
+        for x in bk.events:
+            if x.bb in bk.live and (x.callee or "").endswith("Try::branch") and x.args and flow.operand_local(x.args[0]) in car:
+                car |= flow.result_carriers(bk, x.dest["l"])
+        # the payload of the `?`: Option<BandId>
+        pay = set()
+        for bb_, j_, st_ in bk.all_assigns():
+            rv_ = st_["rv"]
+            if rv_["rk"] == "use" and rv_["ops"][0].get("k") in ("copy", "move") and rv_["ops"][0]["pl"]["l"] in car and rv_["ops"][0]["pl"]["p"]:
+                pay |= flow.result_carriers(bk, st_["pl"]["l"])
+        for (sb_, tested, arms_, other_) in flow.discriminant_switches(bk, pay | car):
+            if (bk.locals[tested] or "").startswith("std::option::Option<bandid::BandId"):
+                none_edges.add((sb_, arms_[0] if 0 in arms_ else other_))
+    if not lbi_:
+        ck.fail(o, bk.name, "anchor-missing", "backup() does not call last_band_id")
+    elif se and not none_edges:
+        ck.fail(o, bk.name, "anchor-missing", "cannot find the test of last_band_id() being None")
+    elif se and not all(bk.must_pass_edges(none_edges, e.bb) for e in se):
+        ck.fail(o, bk.name, "backup can start without a basis although bands exist", "Stitch::empty is reachable when last_band_id() returned Some(..)", se[0].site())
+    else:
+        ck.ok(o, "%d empty-basis site(s)" % len(se), instances=len(se))
     # ---- 2e. the unchanged test is not stricter than kind + mtime + size --------------------------------------
     o = ck.ob("C14.2e", "content_heuristically_unchanged looks at kind, mtime and size only: a metadata-only change (mode, owner) does not "
                         "make the content look changed")
